@@ -91,6 +91,12 @@ static bool Enabled(SimThread * t, bool * byTimeout)
    if ((IsTimedWaiter(t))&&(t->deadline <= g_now)) {*byTimeout = true; return true;}
    return false;
 }
+bool IsAsleep(int tid)
+{
+   if ((tid < 0)||((size_t) tid >= g_threads.size())) return false;
+   SimThread * t = g_threads[tid]; if ((t->st != ST_BL_COND)&&(t->st != ST_BL_CV)&&(t->st != ST_BL_POLL)) return false;
+   bool bt = false; return (Enabled(t, &bt) == false);
+}
 static void WaitForDyingThread()
 {
    const pid_t d = g_dyingTid;
